@@ -21,6 +21,12 @@ fn sym(len: usize, owned: bool, out: &mut [u8; 2]) -> Cow<'static, str> {
 const LEN_STD: [usize; 4] = [2, 1, 2, 0];
 const LEN_CUSTOM: [usize; 4] = [1, 2, 0, 2];
 const OWNED: [bool; 4] = [false, true, false, true];
+// further schedules for the standard-key histories: an EMPTY owned/borrowed value in the first resp. second operation, so that
+// "append to an empty value" and "re-set after an empty value" are among the enumerated states
+const LEN_STD_B: [usize; 4] = [1, 0, 2, 1];
+const OWNED_B: [bool; 4] = [true, true, false, false];
+const LEN_STD_C: [usize; 4] = [1, 2, 0, 1];
+const OWNED_C: [bool; 4] = [false, false, true, true];
 
 /// model of one header's value: None = absent
 #[derive(Clone, Copy)]
@@ -81,20 +87,25 @@ fn empty_headers() -> Headers { Headers { standard: IndexMap::new(), custom: Non
 
 /// history on the standard key KEY, background header BG live throughout
 //@chunks 39 c03_hdr_std_history hdr_std_history_body #[kani::proof] #[kani::unwind(50)]
-fn hdr_std_history_body(k: usize) {
+fn hdr_std_history_body(k: usize) { hdr_std_history_sched(k, LEN_STD, OWNED) }
+fn hdr_std_history_b_body(k: usize) { hdr_std_history_sched(k, LEN_STD_B, OWNED_B) }
+fn hdr_std_history_c_body(k: usize) { hdr_std_history_sched(k, LEN_STD_C, OWNED_C) }
+//@chunks 39 c03_hdr_std_history_b hdr_std_history_b_body #[kani::proof] #[kani::unwind(50)]
+//@chunks 39 c03_hdr_std_history_c hdr_std_history_c_body #[kani::proof] #[kani::unwind(50)]
+fn hdr_std_history_sched(k: usize, lens: [usize; 4], owned: [bool; 4]) {
     let (n, ops) = history(k);
     let mut h = empty_headers();
     let mut bg = Model::absent();
     let mut key = Model::absent();
     let mut b = [0u8; 2];
-    let v = sym(LEN_STD[0], OWNED[0], &mut b);
-    h.insert(BG, v); bg.set(&b[..LEN_STD[0]]);
+    let v = sym(lens[0], owned[0], &mut b);
+    h.insert(BG, v); bg.set(&b[..lens[0]]);
     let mut step = 0;
     while step < n {
-        let l = LEN_STD[step + 1];
+        let l = lens[step + 1];
         match ops[step] {
-            0 => { let v = sym(l, OWNED[step + 1], &mut b); h.insert(KEY, v); key.set(&b[..l]) }
-            1 => { let v = sym(l, OWNED[step + 1], &mut b); h.append(KEY, v); key.append(&b[..l]) }
+            0 => { let v = sym(l, owned[step + 1], &mut b); h.insert(KEY, v); key.set(&b[..l]) }
+            1 => { let v = sym(l, owned[step + 1], &mut b); h.append(KEY, v); key.append(&b[..l]) }
             _ => { h.remove(KEY); key.remove() }
         }
         assert!(h.size == 2 + bg.line_size(4) + key.line_size(12), "size == 2 + sum over live headers of (name + 2 + value + 2), after every operation");
